@@ -1442,7 +1442,12 @@ class SpaceManager(SharedSpaceOperations):
 
         for space, c in targets:
             space.clear_subs_rootitems()
-            c.on_rename(name)
+            if c is not cells and name in space.cells:
+                # The sub space has its own cells named ``name``:
+                # it overrides (or is re-derived below), not replaced
+                space.on_del_cells(old_name)
+            else:
+                c.on_rename(name)
 
         # Sub spaces may derive old_name from another base now
         self.update_subs(cells.parent)
